@@ -252,9 +252,12 @@ def c20_vm(rep, model):
     A1 = rep.rule('C20.A1', 'every store into data keeps the word in [0, 2^31-1] assuming all loads are, and no '
                             'arithmetic on the value path can leave the range of its static type', floor=6)
     seen = set()
+    dlp_act = (('this',), ('f', 'vm'), ('deref',)) + tuple(dlp[1:])
     for f, s in paths:
         name = f['q'] + ('/' + '+'.join(sorted(s.opcodes)) if s.opcodes else '')
         dops = s.p.vec.get(dlp).ops if dlp in s.p.vec else []
+        if f.get('rec') == 'Theo::VM::Activation' and dlp_act in s.p.vec:
+            dops = list(dops) + list(s.p.vec.get(dlp_act).ops)       # an activation reaches the memory through its vm pointer
         for o in dops:
             vals = []
             if o[0] == 'store':
@@ -479,7 +482,7 @@ def c05(rep, model):
     entry = ['setBreakPoint', 'clearBreakpoints', 'setSteppingMode', 'isSteppingModeEnabled', 'getCurrentBreak',
              'getEnabledBreakPoints', 'getActivations', 'isDone']
     for name in entry:
-        f = model.facts.fn('Theo::VM::' + name, optional=True)
+        f = model.method(name) if model.facts.fns('Theo::VM::' + name) else None
         if f is None:
             continue
         bad = None
@@ -539,13 +542,13 @@ def execute_shape(ex):
     others = [c for c in calls if c not in es]
     if not es:
         return ('bad', 'execute() does not call executeSingle')
-    if others:
-        return ('unknown', 'execute() calls something besides executeSingle: %s' % show(others[0]))
     for e in walk_all_exprs(ex['body']):
         if e.get('k') in ('assign',) or (e.get('k') == 'un' and e['op'] in ('++', '--')):
-            tgt = e.get('l') or e.get('e')
+            tgt = strip_casts(e.get('l') or e.get('e'))
             if tgt.get('k') == 'member':
                 return ('bad', 'execute() writes VM state directly: %s' % show(e))
+    if others:
+        return ('unknown', 'execute() calls something besides executeSingle: %s' % show(others[0]))
     if len(es) != 1:
         return execute_by_cases(ex, es)
     loops = [s for s in walk_stmts(ex['body']) if s['k'] in ('while', 'do', 'for')]
@@ -593,6 +596,8 @@ def execute_by_cases(ex, calls):
     class Unsupported(Exception):
         pass
 
+    scaled = {}
+
     def run(answers, limit):
         env = {}
         asked = [0]
@@ -623,12 +628,36 @@ def execute_by_cases(ex, calls):
                 return bool(ev(e['l'])) and bool(ev(e['r']))
             if k == 'bin' and e['op'] == '||':
                 return bool(ev(e['l'])) or bool(ev(e['r']))
-            if k == 'bin' and e['op'] in ('==', '!='):
+            if k == 'bin' and e['op'] in ('==', '!=', '<', '<=', '>', '>='):
+                # a large constant bound of a counter is scaled down (the loop is the same, only shorter): what matters is whether
+                # execute() can leave through it
+                def side(x):
+                    x0 = strip_casts(x)
+                    if x0 is not None and x0.get('k') == 'int' and x0['v'] > 64:
+                        scaled[x0['v']] = 8
+                        return 8
+                    return ev(x)
+                a, b = side(e['l']), side(e['r'])
+                return {'==': a == b, '!=': a != b, '<': a < b, '<=': a <= b, '>': a > b, '>=': a >= b}[e['op']]
+            if k == 'bin' and e['op'] in ('+', '-'):
                 a, b = ev(e['l']), ev(e['r'])
-                return (a == b) if e['op'] == '==' else (a != b)
+                return a + b if e['op'] == '+' else a - b
+            if k == 'un' and e['op'] in ('++', '--'):
+                t = strip_casts(e['e'])
+                if t.get('k') == 'ref' and t.get('dk') == 'var' and t['d'] in env and isinstance(env[t['d']], int):
+                    old_ = env[t['d']]
+                    env[t['d']] = old_ + (1 if '++' in str(e['op']) else -1)
+                    return env[t['d']] if not e.get('postfix') else old_
+                raise Unsupported(show(e)[:60])
             if k == 'assign' and strip_casts(e['l']).get('k') == 'ref' and strip_casts(e['l']).get('dk') == 'var':
                 v = ev(e['r'])
-                env[strip_casts(e['l'])['d']] = v
+                d_ = strip_casts(e['l'])['d']
+                op_ = e.get('op', '=')
+                if op_ in ('+=', '-=') and d_ in env:
+                    v = env[d_] + v if op_ == '+=' else env[d_] - v
+                elif op_ != '=':
+                    raise Unsupported(show(e)[:60])
+                env[d_] = v
                 return v
             if k == 'cond':
                 return ev(e['t']) if ev(e['c']) else ev(e['f'] if 'f' in e else e['e'])
@@ -699,6 +728,11 @@ def execute_by_cases(ex, calls):
         asked, how = run([False] * 6, 6)
         if how != 'limit':
             return ('bad', 'execute() returns although executeSingle() has not returned true yet (after %d answer(s) false)' % asked)
+        if scaled:
+            asked, how = run([False] * 40, 40)
+            if how != 'limit':
+                return ('bad', 'execute() returns although executeSingle() has not returned true yet: its loop is also left through the bound %s '
+                               '(the machine is then neither at a site nor at the end)' % ', '.join(str(k_) for k_ in sorted(scaled)))
         return ('ok', 'evaluated for the answers false^n true (n = 0..3) and false^6: asks exactly n+1 times, returns only after true')
     except Unsupported as u:
         return ('unknown', 'unrecognised loop shape in execute() (%s)' % u)
@@ -744,7 +778,7 @@ def c06(rep, model):
                           'disable: erase and write POTENTIAL_BREAK; clear: restore every site of every location '
                           'enabled at entry, then empty the set', floor=3)
     Cr = rep.rule('C06.c', 'setBreakPoint fails exactly when the location is not listed, and then has no effect', floor=2)
-    sb = model.facts.fn('Theo::VM::setBreakPoint')
+    sb = model.method('setBreakPoint')
     rep.analysed(sb)
     en = model.lp('enabled')
     pb = model.lp('potential_breaks')
